@@ -48,14 +48,17 @@ META = {
         "(or proved it equal, or passed the item through a one-level helper that does so). "
         "(R2) Every element inserted by the Tree methods and by deepcopy is constructed in the same function (or by every caller of "
         "a one-level helper) and inserted once; every deepcopy returns a freshly constructed object. "
-        "(R3) Every handle_* callback of the stdlib HTMLParser is overridden; its arguments reach the node constructor and the "
-        "stored field unchanged; the render template of the node class each callback maps to (f-strings, +, locals bound once and "
+        "(R3) Every handle_* callback of the stdlib HTMLParser is overridden; every event produces its node - no path through the "
+        "callback or the Tree method it calls skips the construction under a condition a well-formed event can satisfy (payload "
+        "empty / white space only, judged per event against a table: `<!---->`, `<?>`, white-space data, tags without "
+        "attributes); its arguments reach the node constructor and the stored field unchanged; the render template of the node class each callback maps to (f-strings, +, locals bound once and "
         "hoisted module constants inlined) re-emits exactly the delimiters the stdlib strips for that event - each table row is "
         "re-verified against the installed html/parser.py and _markupbase.py (slice bounds, compared prefixes, terminator regexes "
         "read as re._parser trees); convert_charrefs is False on the whole path; the void table used by handle_starttag contains "
         "the 13 WHATWG void elements plus 'param'; attributes are written as name=\"value\" for every string value (a separate "
         "branch for None is allowed, one selected by truthiness is not); values the stdlib unescapes must be re-escaped (known "
-        "finding). "
+        "finding), and an escaper (html.escape, saxutils.escape, .replace chains are read as the set of characters they "
+        "rewrite) may rewrite exactly & and \" - not ' < >, which are legal literally inside a double-quoted value. "
         "(R4) With inplace false no mutating, iterating or returning use in strip() can see the element itself: aliases of self "
         "are tracked through assignments and conditional expressions, only paths consistent with inplace == False count; deepcopy "
         "does not write self; the constructor copies the attribute mapping. "
@@ -69,7 +72,8 @@ META = {
         "(R7) __iter__/walk are pre-order in list order, each element once; find() enumerates candidates in that order and its "
         "candidate test - helper methods and lambdas inlined - agrees on a 192-row decision table (identifier is class/name, "
         "matches or not, two abstract requested classes as token / substring-only / absent, 0-2 requested attributes with every "
-        "outcome, attrs None/{}) with: name and (classes is None or token-subset) and all attributes equal, yielded exactly once. "
+        "outcome, attrs None/{}) with: name and (classes is None or token-subset) and all attributes equal, yielded exactly once; the name rows are repeated for every node class the tag callbacks build (Tag, VoidTag, XTag), so a "
+        "name test narrowed by isinstance() to some of them is seen. "
         "(R8) Every feed() of an HtmlToAst in the package goes to a parser constructed for that call (not cached, memoised or "
         "module-level) unless feed() resets the inherited HTMLParser buffer first."
     ),
@@ -86,7 +90,7 @@ META = {
         "stdlib html/parser.py and _markupbase.py as installed (parsed, not imported)",
         "collections.abc.MutableSequence mix-ins (append/extend/+= go through insert)",
         "the engine's escape analysis incl. its discharge of HTMLParser.feed via the parse_marked_section override",
-        "the tables in the module: delimiters per event, WHATWG void elements + 'param'",
+        "the tables in the module: delimiters per event, which payloads can be empty/blank per event, WHATWG void elements + 'param', characters an attribute escaper may rewrite",
     ],
     "assumptions": [
         "HTMLParser never reports an empty end-tag name, and tokenize_html is used with the default root name '' (so Root never matches a closing tag and is never popped)",
@@ -1115,9 +1119,10 @@ def r3_callbacks_and_delimiters(corpus: Corpus, rep: Report, tier: str):
             if c not in conf:
                 rep.listed("C16.R3", f"stdlib|{name}({c['raw']})", c["site"], f"non-canonical emission (strips {sorted(c['prefixes'])}): malformed/bogus markup, outside the well-formed grammar")
         ems = [e for e in cbmap.get(name, []) if e.cls is not None]
-        if len(ems) != 1 or ems[0].guards():
-            raise Unsupported(f"{cb.fq}: expected exactly one unconditional node construction, found {len(ems)}")
+        if len(ems) != 1:
+            raise Unsupported(f"{cb.fq}: expected exactly one node construction, found {len(ems)}")
         em = ems[0]
+        _judge_no_drop(P, rep, em, name)
         _judge_verbatim(P, rep, em, name, {0: "data"})
         exp = ([("lit", pre)] if pre else []) + ["data"] + ([("lit", suf)] if suf else [])
         _judge_shape(P, rep, key, em.cls, exp, name)
@@ -1133,6 +1138,7 @@ def r3_callbacks_and_delimiters(corpus: Corpus, rep: Report, tier: str):
                 raise Unsupported(f"{cb.fq}: `{short(em.call, 40)}` is not guarded by a membership test on self.{void_attr}")
             kind = "void" if pol else "element"
             seen.add(kind)
+            _judge_no_drop(P, rep, em, "handle_starttag", f"handle_starttag[{kind}]", allow=void_attr)
             _judge_verbatim(P, rep, em, f"handle_starttag[{kind}]", {0: "name", 1: "attrs"})
             _judge_shape(P, rep, f"{cb.fq}|{kind} branch re-emits {TAG_SHAPES[kind][0]}", em.cls, _expected_tag_shape(kind), f"handle_starttag ({kind} branch)")
         if seen != {"void", "element"}:
@@ -1141,8 +1147,9 @@ def r3_callbacks_and_delimiters(corpus: Corpus, rep: Report, tier: str):
         cb = P.parser.methods["handle_startendtag"]
         rep.saw_function(cb.fq)
         ems = [e for e in cbmap.get("handle_startendtag", []) if e.cls is not None]
-        if len(ems) != 1 or ems[0].guards():
-            raise Unsupported(f"{cb.fq}: expected exactly one unconditional node construction")
+        if len(ems) != 1:
+            raise Unsupported(f"{cb.fq}: expected exactly one node construction")
+        _judge_no_drop(P, rep, ems[0], "handle_startendtag")
         _judge_verbatim(P, rep, ems[0], "handle_startendtag", {0: "name", 1: "attrs"})
         _judge_shape(P, rep, f"{cb.fq}|self-closing form re-emits ['<', '/>']", ems[0].cls, _expected_tag_shape("selfclosing"), "handle_startendtag")
     # root
@@ -1179,6 +1186,118 @@ def _eval_names(mod, e: ast.expr):
         v = _eval_names(mod, e.args[0])
         return set(v)
     return mod.eval_const(e)
+
+
+# Can the payload of an event be the empty string / consist of white space only for well-formed input?  (ctor argument index)
+PAYLOAD_CAN_BE = {
+    "handle_data": {0: {"empty": False, "blank": True}},  # goahead() only reports i < j; white space between tags is data
+    "handle_comment": {0: {"empty": True, "blank": True}},  # <!----> and <!-- -->
+    "handle_pi": {0: {"empty": True, "blank": True}},  # <?> and <? >
+    "handle_decl": {0: {"empty": False, "blank": False}},  # starts with 'doctype'
+    "handle_charref": {0: {"empty": False, "blank": False}},  # regex requires digits
+    "handle_entityref": {0: {"empty": False, "blank": False}},  # regex requires a letter
+    "handle_starttag": {0: {"empty": False, "blank": False}, 1: {"empty": True, "blank": False}},  # tag name / attribute list (often empty)
+    "handle_startendtag": {0: {"empty": False, "blank": False}, 1: {"empty": True, "blank": False}},
+}
+
+
+def _payload_pred(test: ast.expr, pol: bool, names: set[str]) -> tuple[str, str] | None:
+    """(param, 'empty' | 'blank') if `test == pol` says that the named payload is empty / white space only."""
+    t = test
+    while isinstance(t, ast.UnaryOp) and isinstance(t.op, ast.Not):
+        t, pol = t.operand, not pol
+    if isinstance(t, ast.Name) and t.id in names:
+        return (t.id, "empty") if not pol else None
+    if isinstance(t, ast.Call) and dotted(t.func) == "len" and len(t.args) == 1 and _is_name(t.args[0]) and t.args[0].id in names:
+        return (t.args[0].id, "empty") if not pol else None
+    if isinstance(t, ast.Call) and isinstance(t.func, ast.Attribute) and isinstance(t.func.value, ast.Name) and t.func.value.id in names and not t.args:
+        if t.func.attr == "isspace":
+            return (t.func.value.id, "blank") if pol else None
+        if t.func.attr in ("strip", "lstrip", "rstrip"):
+            return (t.func.value.id, "blank") if not pol else None  # `not data.strip()`: empty or blank
+    if isinstance(t, ast.Compare) and len(t.ops) == 1 and isinstance(t.ops[0], (ast.Eq, ast.NotEq)):
+        l, r = t.left, t.comparators[0]
+        if isinstance(l, ast.Constant):
+            l, r = r, l
+        if isinstance(r, ast.Constant) and r.value in ("", 0):
+            eq = isinstance(t.ops[0], ast.Eq) == pol
+            if isinstance(l, ast.Name) and l.id in names and r.value == "":
+                return (l.id, "empty") if eq else None
+            if isinstance(l, ast.Call) and dotted(l.func) == "len" and l.args and _is_name(l.args[0]) and l.args[0].id in names and r.value == 0:
+                return (l.args[0].id, "empty") if eq else None
+            if isinstance(l, ast.Call) and isinstance(l.func, ast.Attribute) and l.func.attr == "strip" and _is_name(l.func.value) and l.func.value.id in names and r.value == "":
+                return (l.func.value.id, "blank") if eq else None
+    return None
+
+
+def _judge_no_drop(P: Ctx, rep: Report, em: Emit, event: str, label: str | None = None, allow: str | None = None) -> None:
+    """Every event of this kind produces its node: no path through the callback or the Tree method skips the construction
+    under a condition that well-formed input can satisfy."""
+    label = label or event
+    key = f"{em.cb.fq}|{label}: every event produces a node"
+    site = em.cb.module.site(em.call)
+    table = PAYLOAD_CAN_BE.get(event)
+    if table is None:
+        raise Unsupported(f"no payload table for {event}")
+    cbparams = [p for p in em.cb.params if p != "self"]
+    drops: list[tuple[str, FunctionInfo, ast.expr, bool, dict[str, int]]] = []
+    # (a) conditions under which the callback does not reach the Tree call
+    for t, pol in em.guards():
+        if allow and any(_is_self_attr(x, allow) for x in ast.walk(t)):
+            continue  # the void / non-void dispatch itself
+        drops.append(("callback", em.cb, t, not pol, {p: i for i, p in enumerate(cbparams)}))
+    # (b) paths through the Tree method that return without building the node
+    _simulate(P, em.tm)
+    tmidx: dict[str, int] = {}
+    if em.ctor is not None:
+        for i, a in enumerate(em.ctor.args):
+            if isinstance(a, ast.Name):
+                tmidx[a.id] = i
+    for guards in em.tm.__dict__.get("_c16_drop_paths", []):
+        if not guards:
+            rep.violation("C16.R3", key, em.tm.site(), f"{em.tm.qualname} returns without building a node: every {event} event is dropped from the tree and from the rendering")
+            return
+        if len(guards) != 1:
+            raise Unsupported(f"{em.tm.fq}: a node is skipped under a compound condition {[short(g[0], 30) for g in guards]}")
+        drops.append(("tree", em.tm, guards[0][0], guards[0][1], tmidx))
+    resolved = []
+    for where, f, t, pol, idx in drops:
+        # `klass is Data and <payload test>`: the class conjunct is decided by the node class of this event
+        if pol and isinstance(t, ast.BoolOp) and isinstance(t.op, ast.And):
+            rest, feasible = [], True
+            for c in t.values:
+                cls_test = None
+                if isinstance(c, ast.Compare) and len(c.ops) == 1 and isinstance(c.ops[0], (ast.Is, ast.Eq, ast.IsNot, ast.NotEq)) and isinstance(c.left, ast.Name) and c.left.id in f.params:
+                    ci = P.hier_class_named(c.comparators[0], f)
+                    tp = P.g.local_types(f).get(c.left.id)
+                    if ci is not None and tp and tp[0] == "type" and em.cls is not None:
+                        cls_test = (ci.fq == em.cls.fq) == isinstance(c.ops[0], (ast.Is, ast.Eq))
+                if cls_test is None:
+                    rest.append(c)
+                elif not cls_test:
+                    feasible = False
+            if not feasible:
+                continue
+            if len(rest) == 1:
+                t = rest[0]
+            elif not rest:
+                rep.violation("C16.R3", key, f.module.site(t), f"{f.qualname} skips the node for every {event} event (`{short(t, 40)}`)")
+                return
+        resolved.append((where, f, t, pol, idx))
+    drops = resolved
+    for where, f, t, pol, idx in drops:
+        pred = _payload_pred(t, pol, set(idx))
+        if pred is None:
+            raise Unsupported(f"{f.fq}: the node for {event} is skipped when `{'' if pol else 'not '}{short(t, 40)}`: condition not understood")
+        pname, kind = pred
+        can = table.get(idx[pname])
+        if can is None:
+            raise Unsupported(f"{f.fq}: `{pname}` is not a payload of {event}")
+        if can[kind] or (kind == "blank" and can["empty"]):
+            ex = {"handle_comment": "`<!---->`", "handle_pi": "`<?>`", "handle_data": "the white space between two tags", "handle_starttag": "`<p>` (no attributes)", "handle_startendtag": "`<br/>` (no attributes)"}.get(event, "such input")
+            rep.violation("C16.R3", key, f.module.site(t), f"{f.qualname} skips the node when `{'' if pol else 'not '}{short(t, 40)}` ({pname} is {'empty' if kind == 'empty' else 'empty or white space'}): well-formed input delivers such a {event} event ({ex}), which is then missing from the tree and from the rendering")
+            return
+    rep.ok("C16.R3", key, site, "unconditional" if not drops else f"{len(drops)} guard(s), none satisfiable by a well-formed {event} event")
 
 
 def _void_elements(P: Ctx) -> tuple[str, set]:
@@ -1403,11 +1522,66 @@ def _judge_attribute_str(P: Ctx, rep: Report, hp) -> None:
             f"Attribute.__str__ writes the value back raw: `<a href=\"?a=1&amp;b=2\">` is rendered as `<a href=\"?a=1&b=2\">`, and a value containing `&quot;` produces broken markup",
         )
         return
-    text = unparse(h)
-    if isinstance(h, ast.Call) and ("escape" in text or "quoteattr" in text or ("replace" in text and "&amp;" in text)):
-        rep.ok("C16.R3", key, site, f"value is written through `{short(h, 50)}`")
-    else:
+    rewritten = _escaped_chars(h, vname, fi)
+    if rewritten is None:
         raise Unsupported(f"{fi.fq}: value expression {short(h, 50)}")
+    need = {"&", '"'}
+    if not rewritten & need:
+        rep.violation("C16.R3", key, site, f"`{short(h, 50)}` does not re-escape `&` or `\"`: HTMLParser.parse_starttag replaces character/entity references in attribute values, so `<a href=\"?a=1&amp;b=2\">` is rendered as `<a href=\"?a=1&b=2\">`")
+    else:
+        rep.ok("C16.R3", key, site, f"value is written through `{short(h, 50)}` (rewrites {sorted(rewritten)})")
+    key2 = f"{fi.fq}|attribute escaping rewrites exactly & and \""
+    extra, missing = rewritten - need, (need - rewritten) if rewritten & need else set()
+    if extra or missing:
+        what = []
+        if missing:
+            what.append(f"{sorted(missing)} is left as it is, so a value containing it (written `&quot;` / `&amp;` in the source) is re-emitted as broken or different markup")
+        if extra:
+            ex = "'" if "'" in extra else sorted(extra)[0]
+            shown = {"'": "alt=\"it's\" -> alt=\"it&#x27;s\"", "<": "title=\"a<b\" -> title=\"a&lt;b\"", ">": "title=\"a>b\" -> title=\"a&gt;b\""}.get(ex, "")
+            what.append(f"{sorted(extra)} {'are' if len(extra) > 1 else 'is'} rewritten although legal literally inside a double-quoted value: such values round-trip without the escaper and no longer do ({shown})")
+        rep.violation("C16.R3", key2, site, f"`{short(h, 50)}`: " + "; ".join(what))
+    else:
+        rep.ok("C16.R3", key2, site)
+
+
+def _escaped_chars(e: ast.expr, vname: str, fi: FunctionInfo) -> set[str] | None:
+    """Characters an escaping expression over ``vname`` rewrites: html.escape / xml.sax.saxutils.escape / .replace chains."""
+    if isinstance(e, ast.Name):
+        return set() if e.id == vname else None
+    if isinstance(e, ast.BoolOp) and isinstance(e.op, ast.Or) and _is_name(e.values[0], vname) and all(isinstance(v, ast.Constant) and v.value == "" for v in e.values[1:]):
+        return set()  # `value or ""`
+    if isinstance(e, ast.Call) and dotted(e.func) == "str" and len(e.args) == 1:
+        return _escaped_chars(e.args[0], vname, fi)
+    if isinstance(e, ast.Call) and isinstance(e.func, ast.Attribute) and e.func.attr == "replace" and len(e.args) == 2:
+        a0 = e.args[0]
+        if isinstance(a0, ast.Call) and dotted(a0.func) == "chr" and len(a0.args) == 1 and isinstance(a0.args[0], ast.Constant) and isinstance(a0.args[0].value, int):
+            old = chr(a0.args[0].value)
+        elif isinstance(a0, ast.Constant) and isinstance(a0.value, str):
+            old = a0.value
+        else:
+            return None
+        inner = _escaped_chars(e.func.value, vname, fi)
+        if inner is None:
+            return None
+        if isinstance(e.args[1], ast.Constant) and e.args[1].value == old:
+            return inner
+        return inner | {old}
+    if isinstance(e, ast.Call) and e.args:
+        full = fi.module.resolve(dotted(e.func) or "")
+        inner = _escaped_chars(e.args[0], vname, fi)
+        if inner is None:
+            return None
+        if full == "html.escape":
+            q = e.args[1] if len(e.args) > 1 else next((k.value for k in e.keywords if k.arg == "quote"), None)
+            if q is None or (isinstance(q, ast.Constant) and q.value):
+                return inner | {"&", "<", ">", '"', "'"}
+            if isinstance(q, ast.Constant):
+                return inner | {"&", "<", ">"}
+            return None
+        if full in ("xml.sax.saxutils.escape",) and len(e.args) == 1 and not e.keywords:
+            return inner | {"&", "<", ">"}
+    return None
 
 
 def _fmt_tpl(tpl: list) -> str:
@@ -1727,9 +1901,9 @@ class _Sim:
                 cenv[p] = v
         return self.run(callee, cenv)
 
-    def run(self, fi: FunctionInfo, env: dict[str, str]) -> str | None:
+    def run(self, fi: FunctionInfo, env: dict[str, str], stmts: list | None = None) -> str | None:
         P = self.P
-        for st in fi.node.body:
+        for st in (fi.node.body if stmts is None else stmts):
             if isinstance(st, ast.Pass) or (isinstance(st, ast.Expr) and isinstance(st.value, ast.Constant)):
                 continue
             if isinstance(st, ast.Return):
@@ -1775,12 +1949,50 @@ class _Sim:
         return None
 
 
+def _linear_paths(body: list, limit: int = 8) -> list[tuple[list, list]]:
+    """Straight-line paths through a body whose only control flow is if/else and return: [(statements, [(test, polarity)])]."""
+    paths: list[tuple[list, list]] = [([], [])]
+    for st in body:
+        nxt: list[tuple[list, list]] = []
+        for stmts, guards in paths:
+            if stmts and isinstance(stmts[-1], ast.Return):
+                nxt.append((stmts, guards))
+            elif isinstance(st, ast.If):
+                for pol, blk in ((True, st.body), (False, st.orelse)):
+                    for s2, g2 in _linear_paths(blk, limit):
+                        nxt.append((stmts + s2, guards + [(st.test, pol)] + g2))
+            else:
+                nxt.append((stmts + [st], guards))
+        paths = nxt
+        if len(paths) > limit:
+            raise Unsupported("too many paths through a nest function")
+    return paths
+
+
 def _simulate(P: Ctx, fi: FunctionInfo):
-    """(final stack suffix, popped from base, insertions) of a nest function."""
-    sim = _Sim(P)
-    sim.run(fi, {})
-    fi.__dict__["_c16_counter_updates"] = sim.counter_updates
-    return sim.sym, sim.popped, sim.inserts
+    """(final stack suffix, popped from base, insertions) of a nest function, the same on every path that builds a node.
+    Paths that return without touching tree or stack are recorded as *dropping* paths (judged by R3)."""
+    results = []
+    drops = []
+    updates: list = []
+    for stmts, guards in _linear_paths(fi.node.body):
+        sim = _Sim(P)
+        sim.run(fi, {}, stmts)
+        for u in sim.counter_updates:
+            if u not in updates:
+                updates.append(u)
+        if not sim.inserts and not sim.sym and not sim.popped:
+            drops.append(guards)
+        else:
+            results.append((sim.sym, sim.popped, sim.inserts))
+    fi.__dict__["_c16_counter_updates"] = updates
+    fi.__dict__["_c16_drop_paths"] = drops
+    if not results:
+        return [], 0, []
+    norm = lambda r: (tuple(x.split("#")[0] for x in r[0]), r[1], tuple((a, b.split("#")[0]) for a, b in r[2]))  # noqa: E731
+    if len({norm(r) for r in results}) != 1:
+        raise Unsupported(f"{fi.fq}: the paths through the function treat stack / tree differently")
+    return results[0]
 
 
 def _tree_callees(P: Ctx, fi: FunctionInfo) -> list[FunctionInfo]:
@@ -1875,7 +2087,9 @@ def r5_stack_discipline(corpus: Corpus, rep: Report, tier: str):
             continue  # reported above
         sym, popped, inserts = _simulate(P, fi)
         base = [f"T{k}" for k in range(popped, 0, -1)]
-        if sym != base:
+        if not inserts and not sym and not popped and fi.__dict__.get("_c16_drop_paths"):
+            rep.listed("C16.R5", key, fi.site(), "no path inserts a node: reported by C16.R3 (event dropped)")
+        elif sym != base:
             rep.violation("C16.R5", key, fi.site(), f"{fi.qualname} builds a childless node but leaves the open-element stack as [.., {', '.join(x.replace('NEW:', '') for x in sym) or '-'}] after taking {popped} entr{'y' if popped == 1 else 'ies'} from it: following siblings are nested inside the node / the enclosing element is closed early")
         elif len(inserts) == 1 and inserts[0][0] == "T1" and inserts[0][1].startswith("NEW:"):
             rep.ok("C16.R5", key, fi.site())
@@ -2460,6 +2674,7 @@ class _FindEval:
         # T / U: per requested class (two abstract ones) - is it one of the element's class tokens / a substring of the raw attribute
         self.C, self.N, self.G, self.T, self.U, self.attrs = C, N, G, T, U, attrs
         self.S = all(T)
+        self.K: ClassInfo | None = None  # concrete node class of the candidate (one of the classes the tag callbacks build)
         self.yields = 0
         self.set_calls: list[ast.Call] = []
         self.depth = 0
@@ -2514,6 +2729,10 @@ class _FindEval:
             fr.env[name] = ("pending",)
             fr.env[name] = self.ev(vals[0].value, fr)
             return fr.env[name]
+        if not binds:
+            ci = self.P.c.find_class(fi.module.resolve(name))
+            if ci is not None and self.P.in_hier(ci):
+                return ("class", ci)
         raise Unsupported(f"{fi.fq}: name {name}")
 
     # -- expressions
@@ -2529,6 +2748,8 @@ class _FindEval:
             return self.lookup(e.id, fr)
         if isinstance(e, ast.Lambda):
             return ("lambda", e, fr)
+        if isinstance(e, ast.Tuple) and e.elts:
+            return ("tuple", tuple(self.ev(x, fr) for x in e.elts))
         if isinstance(e, ast.Dict) and not e.keys:
             return ("map", ())
         if isinstance(e, (ast.List, ast.Tuple, ast.Set)) and not e.elts:
@@ -2644,6 +2865,11 @@ class _FindEval:
                 return ("bool", self.N)
             if a1[0] == "ident" and a0[0] == "ident":
                 raise Unsupported(f"{fr.fi.fq}: `{short(e, 40)}`")
+            if a0[0] == "cand" and (a1[0] == "class" or (a1[0] == "tuple" and all(x[0] == "class" for x in a1[1]))):
+                if self.K is None:
+                    raise Unsupported(f"{fr.fi.fq}: `{short(e, 40)}` (candidate class unknown)")
+                mro = {c.fq for c in self.P.c.mro(self.K)}
+                return ("bool", any(x[1].fq in mro for x in ([a1] if a1[0] == "class" else a1[1])))
         if d == "isinstance" and len(e.args) == 2 and self.ev(e.args[0], fr)[0] == "ident" and unparse(e.args[1]) in ("type", "str"):
             return ("bool", self.C if unparse(e.args[1]) == "type" else not self.C)
         if isinstance(f, ast.Name) and last in ("set", "frozenset", "list", "tuple", "sorted") and len(e.args) == 1:
@@ -2804,9 +3030,23 @@ def _judge_find_filters(P: Ctx, rep: Report, find: FunctionInfo, main: ast.For, 
     bad: dict[str, str] = {}
     set_calls: dict[int, ast.Call] = {}
     results: dict[tuple, tuple[bool, str, int]] = {}
-    for sc in _find_scenarios():
+    # node classes that carry a tag name: what the tag callbacks build
+    cbmap = _callback_map(P)
+    kinds: list[ClassInfo] = []
+    for cbn in ("handle_starttag", "handle_startendtag"):
+        for em in cbmap.get(cbn, []):
+            if em.cls is not None and em.cls not in kinds:
+                kinds.append(em.cls)
+    if not kinds:
+        raise Unsupported(f"{find.fq}: no tag node classes found")
+    TT = (True, True)
+    rows = [(kinds[0], sc) for sc in _find_scenarios()]
+    rows += [(k, (C, N, False, TT, TT, "none")) for k in kinds[1:] for C in (False, True) for N in (True, False)]
+    kind_bad: str | None = None
+    for K, sc in rows:
         C, N, G, T, U, a = sc
         run = _FindEval(P, find, main, cand, C, N, G, T, U, a)
+        run.K = K
         want = 1 if (N and (not G or all(T)) and (a in ("none", "empty") or all(a))) else 0
         try:
             sig = run.run()
@@ -2818,7 +3058,10 @@ def _judge_find_filters(P: Ctx, rep: Report, find: FunctionInfo, main: ast.For, 
             wrong, got = True, str(e)
         for c in run.set_calls:
             set_calls[id(c)] = c
-        results[sc] = (wrong, got, want)
+        if K is kinds[0]:
+            results[sc] = (wrong, got, want)
+        elif wrong and kind_bad is None:
+            kind_bad = f"when the element is a {K.name} and {_scenario_text(*sc)}: {got} (expected: {'yielded once' if want else 'not yielded'}) - every element built from a tag ({', '.join(k.name for k in kinds)}) must be found by its tag name"
     for sc, (wrong, got, want) in results.items():
         if not wrong:
             continue
@@ -2830,6 +3073,8 @@ def _judge_find_filters(P: Ctx, rep: Report, find: FunctionInfo, main: ast.For, 
         else:
             which = "classes"
         bad.setdefault(which, f"when {_scenario_text(*sc)}: {got} (expected: {'yielded once' if want else 'not yielded'})")
+    if kind_bad:
+        bad.setdefault("name", kind_bad)
     for c in set_calls.values():
         if c.func.attr != "issubset":
             bad["classes"] = f"`{short(c, 50)}`: the class filter must accept an element iff every requested class is among its classes (issubset); `{c.func.attr}` accepts a different set of elements"
@@ -2837,7 +3082,7 @@ def _judge_find_filters(P: Ctx, rep: Report, find: FunctionInfo, main: ast.For, 
         if which in bad:
             rep.violation("C16.R7", key, site, f"find(): {bad[which]}")
         else:
-            rep.ok("C16.R7", key, site, f"{len(results)}-row decision table of the candidate test agrees with: name and (classes is None or token-subset) and all requested attributes equal")
+            rep.ok("C16.R7", key, site, f"{len(rows)}-row decision table of the candidate test agrees with: name and (classes is None or token-subset) and all requested attributes equal")
 
 
 # ---------------------------------------------------------------------------
@@ -3075,6 +3320,20 @@ def mutants(corpus: Corpus):
     vt = m.classes.get("VoidTag")
     js = find_node(vt.methods["render"], lambda n: isinstance(n, ast.JoinedStr)) if vt else None
     add("c16-void-tag-rendered-self-closing", "C16.R3", js, "f\"<{self.name}{' ' if self.attrs else ''}{self.attrs}/>\"", "void branch")
+    # R3 (class: an event is dropped under a condition well-formed input satisfies)
+    nt_ = T["nest_terminal"]
+    first = next((x for x in nt_.node.body if not (isinstance(x, ast.Expr) and isinstance(x.value, ast.Constant))), None)
+    dp = [p_ for p_ in nt_.params if p_ != "self"]
+    if first is not None and len(dp) == 2:
+        add("c16-empty-terminal-events-dropped", "C16.R3", first, f"if not {dp[1]}:\n            return\n        " + ast.get_source_segment(src, first), "every event produces a node")
+    hc_ = find_node(H["handle_comment"], lambda n: isinstance(n, ast.Expr) and isinstance(n.value, ast.Call) and unparse(n.value.func).endswith("nest_terminal"))
+    cp = [p_ for p_ in H["handle_comment"].params if p_ != "self"]
+    if hc_ is not None and cp:
+        add("c16-blank-comments-dropped", "C16.R3", hc_, f"if {cp[0]}.strip():\n            " + ast.get_source_segment(src, hc_), "handle_comment: every event")
+    hd_ = find_node(H["handle_data"], lambda n: isinstance(n, ast.Expr) and isinstance(n.value, ast.Call) and unparse(n.value.func).endswith("nest_terminal"))
+    dp2 = [p_ for p_ in H["handle_data"].params if p_ != "self"]
+    if hd_ is not None and dp2:
+        add("c16-whitespace-data-dropped", "C16.R3", hd_, f"if {dp2[0]}.isspace():\n            return\n        " + ast.get_source_segment(src, hd_), "handle_data: every event")
     # ---- R4
     s_ = E["strip"]
     iff = find_node(s_, lambda n: isinstance(n, ast.If) and unparse(n.test) == "not inplace")
@@ -3167,6 +3426,16 @@ def mutants(corpus: Corpus):
     ):
         ns = counter_variant(*args)
         out.append(Mutant(mid, "C16.R5", m.rel, ns, expect=exp) if ns else (mid, "Tree no longer has the stack idiom this mutant rewrites"))
+    at3 = P.attribute.methods.get("__str__")
+    js3 = find_node(at3, lambda n: isinstance(n, ast.JoinedStr)) if at3 else None
+    vfv = [v for v in js3.values if isinstance(v, ast.FormattedValue)] if js3 is not None else []
+    if len(vfv) == 2 and isinstance(vfv[1].value, ast.Name):
+        vn = vfv[1].value.id
+        out.append(Mutant("c16-attribute-html-escape-all", "C16.R3", m.rel, splice(src, vfv[1].value, f'html.escape({vn} or "")') + "\n\nimport html\n", expect="rewrites exactly"))
+        add("c16-attribute-escapes-apostrophe-too", "C16.R3", vfv[1].value, f"""{vn}.replace("&", "&amp;").replace(chr(34), "&quot;").replace("'", "&#39;")""", "rewrites exactly")
+        add("c16-attribute-escapes-ampersand-only", "C16.R3", vfv[1].value, f"""{vn}.replace("&", "&amp;")""", "rewrites exactly")
+    else:
+        out.append(("c16-attribute-html-escape-all", "Attribute.__str__ no longer writes the bare value"))
     at2 = P.attribute.methods.get("__str__")
     js2 = find_node(at2, lambda n: isinstance(n, ast.JoinedStr)) if at2 else None
     if js2 is not None:
@@ -3207,6 +3476,13 @@ def mutants(corpus: Corpus):
         add("c16-find-classes-any-instead-of-all", "C16.R7", sc_, f"any(c_ in {unparse(sc_.args[0])} for c_ in classes)", "classes filter")
     else:
         out.append(("c16-find-classes-substring-of-raw-attribute", "find() no longer calls classes.issubset(...)"))
+    nm = find_node(f, lambda n: isinstance(n, ast.Compare) and isinstance(enclosing_function(n).node, ast.Lambda) and "identifier" in unparse(n) and ".name" in unparse(n))
+    if nm is not None:
+        pv = unparse(nm.left).split(".")[0]
+        add("c16-find-by-name-only-for-Tag", "C16.R7", nm, f"isinstance({pv}, Tag) and {unparse(nm)}", "name filter")
+        add("c16-find-by-name-skips-void", "C16.R7", nm, f"not isinstance({pv}, VoidTag) and {unparse(nm)}", "name filter")
+    else:
+        out.append(("c16-find-by-name-only-for-Tag", "find() has no name-comparison lambda any more"))
     b = find_node(f, lambda n: isinstance(n, ast.Break))
     add("c16-find-attrs-mismatch-continues", "C16.R7", b, "continue", "attrs filter")
     c = find_node(f, lambda n: isinstance(n, ast.Call) and unparse(n) == "self.walk()")
